@@ -378,7 +378,7 @@ def run(ctx, res):
         # variable must hold the output afterwards).  run_proc's assignment-only branch is execute.rs glue outside
         # Model/Expand.v: it is tied by this layer only.
         l2a = []
-        for i in (0, 18):
+        for i in (0, 18, 6):       # 6: an output with an interior newline (the value of the assignment holds it)
             o = strip_nl(OUTS[i])
 
             def sub(k, spelling):
@@ -414,12 +414,9 @@ def run(ctx, res):
                         observed={"stdout": out, "runs": runs}, failing_input=True,
                         note="a substitution in an assignment / here-string must run exactly once and its output must be the value")
         # ------------------------------------------------------------ L2f: inner commands that are FUNCTIONS with control flow
-        # direct differential: what the function prints when run directly (uncaptured) against what $(f) / `f` splice in.
-        # Two recorded classes of the unchanged code apply to captured functions (known_findings.txt):
-        #   function_output_joined        the outputs of the function's commands, each trimmed, are joined by single spaces
-        #   captured_function_conditions  inside a captured function every if / while condition is taken as true
-        # Inside them the recorded behaviour is predicted exactly (the same function with its conditions replaced by
-        # `true`, run directly, lines joined by blanks); anything else is a VIOLATION.
+        # direct differential: what the function prints when run directly (uncaptured) against what $(f) / `f` splice in:
+        # the spliced text must be exactly that output minus its trailing newlines (0d85d61 and 7948e8b repaired the two
+        # defects this layer found: conditions inside a captured function, per-command trimming and joining by blanks).
         FUNCS = {
             "f_plain": ["echo one", "echo two"],
             "f_for": ["for x in a b c; do", "  echo \"it=$x\"", "done", "echo end"],
@@ -459,8 +456,7 @@ def run(ctx, res):
 
         TEMPL = [('echo "<$(%s)>"', "<%s>"), ('echo "<`%s`>"', "<%s>"), ("echo pre-$(%s)-post", "pre-%s-post"),
                  ('V=$(%s)\necho "[$V]"', "[%s]"), ('V=`%s`\necho "[$V]"', "[%s]")]
-        fjobs = [("direct", n, None) for n in sorted(FUNCS)] + [("true", n, None) for n in sorted(FUNCS)] + \
-                [("subst", n, k) for n in sorted(FUNCS) for k in range(len(TEMPL))]
+        fjobs = [("direct", n, None) for n in sorted(FUNCS)] + [("subst", n, k) for n in sorted(FUNCS) for k in range(len(TEMPL))]
 
         def one_f(job):
             kind, n, k = job
@@ -475,25 +471,13 @@ def run(ctx, res):
         res.count("L2f_function_substitutions", len(fjobs))
         for n in sorted(FUNCS):
             direct = fouts[("direct", n, None)]
-            as_true = fouts[("true", n, None)]
-            has_cond = any(re.match(r"\s*(if|while) ", l) and "true" not in l for l in FUNCS[n])
             for k in range(len(TEMPL)):
                 got = fouts[("subst", n, k)]
                 want = TEMPL[k][1] % strip_nl(direct) + "\n"
                 res.nontrivial("l2f:%s:%d" % (n, k))
-                if got == want:
-                    continue
-                joined = TEMPL[k][1] % " ".join(x.strip() for x in strip_nl(direct).split("\n")) + "\n"
-                joined_true = TEMPL[k][1] % " ".join(x.strip() for x in strip_nl(as_true).split("\n")) + "\n"
-                if got == joined and "function_output_joined" in known:
-                    hit("function_output_joined")
-                elif has_cond and got == joined_true and "captured_function_conditions" in known and "function_output_joined" in known:
-                    hit("captured_function_conditions")
-                    hit("function_output_joined")
-                else:
+                if got != want:
                     violate(kind="oracle", layer="L2f", function=n, body=FUNCS[n], input=TEMPL[k][0] % n,
-                            expected=want, recorded_behaviour=joined_true if has_cond else joined, observed=got, direct_output=direct,
-                            failing_input=True,
-                            note="the text spliced in for a function is neither its standard output nor the recorded behaviour")
+                            expected=want, observed=got, direct_output=direct, failing_input=True,
+                            note="the text spliced in for a function is not what the function writes when run directly")
     finally:
         shutil.rmtree(work, ignore_errors=True)
